@@ -6,12 +6,15 @@ import (
 	"encoding/json"
 	"fmt"
 	"net"
+	"os"
+	"path/filepath"
 	"reflect"
 	"sort"
 	"strconv"
 	"strings"
 	"testing"
 	"testing/synctest"
+	"time"
 	"unicode/utf8"
 
 	"github.com/honeytrap/honeytrap/event"
@@ -275,6 +278,8 @@ func runC05(t *testing.T, sc *Scenario) Result {
 	res := okResult()
 	var obs *Obs
 	var conns []c05Conn
+	var fileLines []string
+	fileRead := false
 	switch sc.ParamStr("workload", "") {
 	case "hostile":
 		obs, _ = runHostile(t, sc, &res, nil, nil)
@@ -312,7 +317,26 @@ func runC05(t *testing.T, sc *Scenario) Result {
 			w.Drain()
 		})
 	default:
-		obs = RunScenario(t, sc, nil)
+		// the real file channel runs beside the capture channel: what it writes (asynchronously, up to a second
+		// later) is compared with each event as it was when it was sent
+		fsc := sc.Clone()
+		fsc.Config += "\n[channel.c05file]\ntype=\"file\"\nfilename=\"@TMP@/c05-events.log\"\nmaxsize=1073741824\n\n[[filter]]\nchannel=[\"c05file\"]\n"
+		captureSnapJSON = true
+		obs = RunScenario(t, fsc, func(w *World) {
+			w.runStandard()
+			if w.Obs.BootErr != "" {
+				return
+			}
+			time.Sleep(2500 * time.Millisecond)
+			synctest.Wait()
+			files, _ := filepath.Glob(filepath.Join(w.TmpDir, "c05-events.log*"))
+			for _, f := range files {
+				b, _ := os.ReadFile(f)
+				fileLines = append(fileLines, strings.Split(strings.TrimSuffix(string(b), "\n"), "\n")...)
+			}
+			fileRead = true
+		})
+		captureSnapJSON = false
 		conns = connsOf(sc)
 	}
 	res.Digest = traceDigest(obs, c04Skip)
@@ -326,6 +350,25 @@ func runC05(t *testing.T, sc *Scenario) Result {
 		res.fault(f, 1)
 	}
 	c05Monitor(obs, conns, &res)
+	if res.Verdict != "violation" && fileRead {
+		c05FileChannel(obs, fileLines, &res)
+	}
+	if res.Verdict != "violation" && sc.ParamStr("workload", "") == "dialogue" {
+		// generator as oracle for the payload fields: where the grammar knows which bytes a command's event must
+		// carry as payload (an HTTP body, a stored value, ...), the event found for that command carries exactly them
+		for ai := range sc.Actors {
+			a := &sc.Actors[ai]
+			if a.Kind != "tcp" && a.Kind != "udp" {
+				continue
+			}
+			_, maps := connEvents(obs, a.Src, c04Skip)
+			if k, f, d := checkWants(a, maps); k == "event-field-wrong" && strings.HasPrefix(f, "payload") {
+				res.Violate("payload-not-the-bytes-sent", sc.ParamStr("proto", "")+":"+f, d)
+				break
+			}
+			res.probe("dialogue-payloads-compared", 1)
+		}
+	}
 	if res.Verdict == "violation" {
 		res.Site = strings.SplitN(sc.Class, "/", 2)[0] + ":" + res.Site
 		for i := range res.All {
@@ -413,4 +456,89 @@ func boolInt(b bool) int {
 		return 1
 	}
 	return 0
+}
+
+// c05FileChannel: the lines the real file channel wrote are, as a multiset, the events as they were when sent.
+func c05FileChannel(obs *Obs, lines []string, res *Result) {
+	var want []string
+	for _, e := range obs.Events {
+		if e.Channel != "cap" {
+			continue
+		}
+		if e.J == "" {
+			return // (an event that does not serialise is the monitor's finding)
+		}
+		want = append(want, e.J)
+	}
+	if len(lines) == 1 && lines[0] == "" {
+		lines = nil
+	}
+	got := append([]string(nil), lines...)
+	sort.Strings(want)
+	sort.Strings(got)
+	i, j := 0, 0
+	var onlyWant, onlyGot []string
+	for i < len(want) || j < len(got) {
+		switch {
+		case j >= len(got) || i < len(want) && want[i] < got[j]:
+			onlyWant = append(onlyWant, want[i])
+			i++
+		case i >= len(want) || got[j] < want[i]:
+			onlyGot = append(onlyGot, got[j])
+			j++
+		default:
+			i++
+			j++
+		}
+	}
+	res.probe("file-channel-lines-compared", len(got))
+	if len(onlyWant) == 0 && len(onlyGot) == 0 {
+		return
+	}
+	if len(got) != len(want) {
+		ex := ""
+		if len(onlyWant) > 0 {
+			ex = onlyWant[0]
+		} else {
+			ex = onlyGot[0]
+		}
+		res.Violate("file-channel-line-count", "file-channel", fmt.Sprintf("%d events were sent, the file channel wrote %d lines; first without partner: %s", len(want), len(got), short(ex, 400)))
+		return
+	}
+	// same count, different content: name the first key that differs between an orphan line and the closest event
+	var gm, wm map[string]interface{}
+	if json.Unmarshal([]byte(onlyGot[0]), &gm) != nil {
+		res.Violate("file-channel-line-not-json", "file-channel", short(onlyGot[0], 400))
+		return
+	}
+	best, bestN := "", -1
+	for _, w := range onlyWant {
+		var m map[string]interface{}
+		json.Unmarshal([]byte(w), &m)
+		n := 0
+		for k, v := range m {
+			if fmt.Sprint(gm[k]) == fmt.Sprint(v) {
+				n++
+			}
+		}
+		if n > bestN {
+			best, bestN, wm = w, n, m
+		}
+	}
+	key := ""
+	var keys []string
+	for k := range wm {
+		keys = append(keys, k)
+	}
+	sort.Strings(keys)
+	for _, k := range keys {
+		if _, ok := gm[k]; !ok {
+			res.Violate("file-channel-key-missing", "file-channel:"+fmt.Sprint(wm["category"]), fmt.Sprintf("key %q of the event is not in the line the file channel wrote: %s", k, short(onlyGot[0], 400)))
+			return
+		}
+		if key == "" && fmt.Sprint(gm[k]) != fmt.Sprint(wm[k]) {
+			key = k
+		}
+	}
+	res.Violate("event-changed-after-it-was-sent", "file-channel:"+fmt.Sprint(wm["category"])+":"+key, fmt.Sprintf("key %q: the event carried %s when it was sent, the file channel wrote %s\nsent:    %s\nwritten: %s", key, short(fmt.Sprint(wm[key]), 120), short(fmt.Sprint(gm[key]), 120), short(best, 300), short(onlyGot[0], 300)))
 }
